@@ -171,10 +171,19 @@ def check(case: Dict[str, Any]) -> Dict[str, Any]:
     t0 = run.t_settled_ms
     rel = lambda ms: round(ms - t0, 3)
     by_data = {q['data']: q for q in run.queries}
-    guard_dropped = run.dropped_by_duplicate_guard()
+    from collections import Counter
+
+    n_dropped = Counter(run.dropped_by_duplicate_guard())
+    n_copies = Counter((q['data'], q['t_ms']) for q in run.queries)
+    n_seen: Counter = Counter()
+    guard_dropped_ids: Set[int] = set()      # of several copies arriving at one instant the first is handled, the later ones dropped
     same_bytes: Dict[bytes, List[Dict[str, Any]]] = {}
     for q in run.queries:
-        if (q['data'], q['t_ms']) not in guard_dropped:
+        key = (q['data'], q['t_ms'])
+        n_seen[key] += 1
+        if n_seen[key] > n_copies[key] - n_dropped[key]:
+            guard_dropped_ids.add(id(q))
+        else:
             same_bytes.setdefault(q['data'], []).append(q)
 
     def packet_for(d: bytes, t_ms: float) -> Any:
@@ -221,7 +230,7 @@ def check(case: Dict[str, Any]) -> Dict[str, Any]:
         immediate_shape = len(first_qs) == 1 and first_qs[0][1] in IMMEDIATE_TYPES
         logical.append({'g': a['g'], 't': a['t_ms'], 'packets': packets, 'exp': exp, 'dont_care': dont_care, 'probe': probe,
                         'train': is_train, 'immediate_shape': immediate_shape, 'known': known})
-    missing_pk = [q for q in run.queries if id(q) not in used and q['t_ms'] + 520 < run.end_ms and (q['data'], q['t_ms']) not in guard_dropped]
+    missing_pk = [q for q in run.queries if id(q) not in used and q['t_ms'] + 520 < run.end_ms and id(q) not in guard_dropped_ids]
     if missing_pk:
         raise Violation('a query packet was never handled', {'packets': [(rel(q['t_ms']), q['questions'], q['tc']) for q in missing_pk]},
                         tag='query-dropped')
